@@ -633,13 +633,58 @@ func checkC06(c *Ctx, r *Report) {
 		strip := findCall(f, "(*"+headersPkg+".HeaderDirectives).StripRegularConditionals")
 		mk := findCall(f, cachePkg+".MakeFromRequest")
 		pr := findCall(f, "(*"+proxyPkg+".Proxy).processRequest")
-		ok := strip != nil && mk != nil && pr != nil && instrDominates(strip, mk) && instrDominates(strip, pr)
+		// The strip happens exactly for the methods whose answers the proxy may serve or renew from its store (GET and
+		// HEAD: a 304 to a client validator would be taken for the proxy's own revalidation). For every other method
+		// the conditionals are the client's business with the origin (If-Match on PUT is its lost-update guard) and
+		// must arrive (C08). Compared as a truth table over the method tests on the paths to processRequest.
+		ok := strip != nil && mk != nil && pr != nil
+		detail := ""
 		if ok {
-			// stripped from the same header map that is keyed/forwarded
 			_, p := fieldPath(callArgs(strip)[1])
 			ok = len(p) == 1 && p[0] == "Header" && sameVal(mk.Call.Args[0], pr.Call.Args[2])
 		}
-		r.Check(ok, "C06.R2", "client conditionals are stripped before keying and fetching", c.Pos(f.Pos()), "StripRegularConditionals(req.Header) dominates MakeFromRequest and processRequest", "client conditionals are not stripped before the request is keyed / forwarded: the origin may answer 304 to the client's validator and the proxy treats it as its own revalidation")
+		if ok {
+			bs := &boolSummer{li: li}
+			paths, okP := bs.pathsTo(f, pr)
+			if !okP {
+				ok, detail = false, "paths through handleHTTP could not be summarised"
+			}
+			var bad []string
+			for _, pth := range paths {
+				isGet, knownGet := pth.cond["$proxyReq.Method==\"GET\""]
+				isHead, knownHead := pth.cond["$proxyReq.Method==\"HEAD\""]
+				// does this path execute the strip?  (the strip is on the path iff the path condition of reaching it is implied)
+				stripped := false
+				if sp, okS := bs.pathsTo(f, strip); okS {
+					for _, q := range sp {
+						consistent := true
+						for a, v := range q.cond {
+							if pv, has := pth.cond[a]; has && pv != v {
+								consistent = false
+							}
+						}
+						// the strip lies before processRequest: a path to pr that is consistent with a path to the strip passes it
+						if consistent && instrDominatesOrSameArm(strip, pr) {
+							stripped = true
+						}
+					}
+				}
+				mayBeCacheable := (!knownGet || isGet) || (!knownHead || isHead)
+				definitelyOther := knownGet && !isGet && knownHead && !isHead
+				switch {
+				case mayBeCacheable && !definitelyOther && !stripped:
+					bad = append(bad, "a GET/HEAD request reaches processRequest with the client's conditionals in place ["+pth.cond.String()+"]")
+				case definitelyOther && stripped:
+					bad = append(bad, "conditionals are stripped from a request that is neither GET nor HEAD ["+pth.cond.String()+"]")
+				case stripped && !knownGet && !knownHead:
+					bad = append(bad, "conditionals are stripped whatever the method: If-Match / If-Unmodified-Since of a PUT, POST or DELETE never reach the origin")
+				}
+			}
+			if len(bad) > 0 {
+				ok, detail = false, strings.Join(uniq(bad), "; ")
+			}
+		}
+		r.Check(ok, "C06.R2", "client conditionals are stripped before keying and fetching", c.Pos(f.Pos()), "StripRegularConditionals(req.Header) runs exactly for GET and HEAD, on the header map that is keyed and forwarded", "client conditionals are not stripped exactly where the proxy answers for the origin: "+detail)
 	}
 	var stripped, declared []string
 	for _, f := range c.FuncsNamed("(*" + headersPkg + ".HeaderDirectives).StripRegularConditionals") {
@@ -987,4 +1032,13 @@ func checkC09(c *Ctx, r *Report) {
 	}
 	sort.Strings(rl)
 	r.OkT("C09.R4", "empty-body refusal per backend", "-", fmt.Sprintf("backends refusing a 0-byte body: %v (refusals are store errors and therefore subject to R1's fallback)", rl))
+}
+
+// instrDominatesOrSameArm: a executes before b on the paths that contain both (a dominates b, or a sits in a
+// conditional arm that rejoins before b).
+func instrDominatesOrSameArm(a, b ssa.Instruction) bool {
+	if instrDominates(a, b) {
+		return true
+	}
+	return reachableInstr(a, b, nil) && !reachableInstr(b, a, nil)
 }
